@@ -724,9 +724,18 @@ func (s *sctx) flavorItem(withInstance bool, role string) Item {
 		// (inittable is not inherited, and a child's load form abbreviates
 		// "all of my own" to the bare option, which on reload means all
 		// effective variables: a child names none or all)
-		if inittable = nil; r.IntN(2) == 0 {
+		// [the abbreviation is repaired for this option: a child also names exactly its own
+		// variables, or some of them; the load form must then keep the list]
+		switch inittable = nil; r.IntN(4) {
+		case 0:
 			inittable = info.vars
 			opts = append(opts, ":inittable-instance-variables")
+		case 1:
+			inittable = vars
+			opts = append(opts, fmt.Sprintf("(:inittable-instance-variables %s)", names(vars)))
+		case 2:
+			inittable = vars[:1]
+			opts = append(opts, fmt.Sprintf("(:inittable-instance-variables %s)", names(vars[:1])))
 		}
 	default:
 		inittable = mode(":inittable-instance-variables")
